@@ -9,6 +9,9 @@ LLSE_NOTE = ('Trusted base: rustc/LLVM up to the emitted IR (the IR is what is c
              'Verdicts hold within the stated structural bounds only; see evidence coverage.bounds / outside_claim.')
 
 CLAIMED = {
+ 'C08': dict(
+    text='Bounded symbolic model checking of kernels of the pipeline in a checked build (overflow checks and debug assertions on), every finding confirmed through the public API: (1) the bytecode compiler + VM on `x!…!` with the number of "!" symbolic (1..2^20) against a reference multifactorial: no panic, no budget overrun, the written order is used; (2) run-time unit exponent arithmetic (Unit::power, multiplication + canonicalisation) and (3) the checker\'s dimension exponent arithmetic (DType::try_* must not panic; the unchecked variants) with symbolic exponents up to 2^126. A kernel finding is reported only if the same inputs submitted as source text to Context::interpret abort, hang or misbehave natively; two genuine overflow defects are listed as known findings. The exponent kernels are bounded explorations (bug hunting), stated as such.',
+    design_ref='DESIGN.md §4 C08', technique='symbolic execution of LLVM IR + SMT (z3 QF_BV/QF_FPBV) on kernels, public-API replay of every model'),
  'C10': dict(
     text='Bounded symbolic model checking of the compiled parser: Parser::parse runs on token streams whose token kinds are symbolic (37-kind expression alphabet), next to an independent table-driven reference parser transcribed from the documented precedence table; on every feasible path either both reject the sequence or the two syntax trees are structurally identical. Exhaustive over all sequences up to the stated length, plus longer templates (three- and four-operand expressions, conditionals, unary/postfix combinations, parentheses, calls) whose operator positions are symbolic over all 23 operators. All-sequences-within-a-bound is the right level because a precedence or associativity slip shows only for a particular pair of operators in a particular arrangement.',
     design_ref='DESIGN.md §4 C10', technique='symbolic execution of LLVM IR + SMT (z3 QF_BV), replay-mode path exploration, reference-parser differential'),
